@@ -904,6 +904,57 @@ impl WorkerHeartbeat {
     }
 }
 
+/// Verification hook: the real `WorkerHeartbeat` (the single heartbeat that may be outstanding for a
+/// worker, consulted by `IdentifyStuckWorkers`) behind a probe, so that the external /verif machinery can
+/// drive it on a paused clock.
+#[cfg(feature = "verif")]
+pub mod verif_heartbeat {
+    use super::{Duration, Instant, WorkerHeartbeat};
+
+    /// A `WorkerHeartbeat` of its own.
+    #[derive(Default)]
+    pub struct HeartbeatProbe(WorkerHeartbeat);
+
+    impl std::fmt::Debug for HeartbeatProbe {
+        fn fmt(&self, f: &mut std::fmt::Formatter<'_>) -> std::fmt::Result {
+            f.debug_struct("HeartbeatProbe").field("sent_at", &self.0.sent_at).finish()
+        }
+    }
+
+    impl HeartbeatProbe {
+        /// `WorkerHeartbeat::default()`
+        pub fn new() -> Self {
+            Self::default()
+        }
+        /// `is_pending`
+        pub fn is_pending(&self) -> bool {
+            self.0.is_pending()
+        }
+        /// what `send_factory_ping` does to the heartbeat (when the cast succeeded): nothing if one is pending
+        pub fn ping(&mut self, now: Instant) {
+            if !self.0.is_pending() {
+                self.0.sent(now);
+            }
+        }
+        /// `clear` (what `ping_received` and `replace_worker` do)
+        pub fn clear(&mut self) {
+            self.0.clear();
+        }
+        /// `is_stuck_at`
+        pub fn is_stuck_at(&self, now: Instant, timeout: Duration) -> bool {
+            self.0.is_stuck_at(now, timeout)
+        }
+        /// `is_stuck` (reads the clock)
+        pub fn is_stuck(&self, timeout: Duration) -> bool {
+            self.0.is_stuck(timeout)
+        }
+        /// the instant recorded for the outstanding heartbeat
+        pub fn sent_at(&self) -> Option<Instant> {
+            self.0.sent_at
+        }
+    }
+}
+
 #[cfg(test)]
 mod heartbeat_tests {
     use super::*;
